@@ -99,9 +99,9 @@ func TestCheck(t *testing.T) {
 	case "race", "asan":
 		c.Roots, c.Sweeps, c.SweepK = r.N(12, 120), r.N(16, 160), r.N(150, 600)
 	case "spsa":
-		c.Roots, c.Sweeps, c.SweepK = r.N(40, 300), r.N(48, 300), r.N(300, 1500)
+		c.Roots, c.Sweeps, c.SweepK = r.N(40, 300), r.N(48, 200), r.N(300, 1200)
 	default:
-		c.Roots, c.Sweeps, c.SweepK = r.N(120, 900), r.N(165, 880), r.N(400, 5000)
+		c.Roots, c.Sweeps, c.SweepK = r.N(120, 900), r.N(165, 560), r.N(400, 3000)
 	}
 	c.Go()
 	if r.Stage == "main" {
